@@ -141,7 +141,10 @@ def build(defn, decl=None, assumptions=None):
         model = ui.Model(dt=syms[defn["dt"]], state=st, control=ct, calibration=cl, state_model=sm)
     sensors = dshuf((k, dshuf((r, to_sympy(e, syms)) for r, e in rd.items())) for k, rd in defn["sensors"].items())
     pn = dshuf((syms[u], v) for u, v in defn["process_noise"].items())
-    sn = dshuf((k, dshuf(rd.items())) for k, rd in defn["sensor_noise"].items())
+    # readings may be named by str in the sensor models and by a same-named Symbol in the noise dictionary (validation
+    # compares them as strings): one declaration in three does
+    symkeys = decl.get("noise_keys", "symbol" if random.Random(decl.get("perm_seed", 0) + 5).random() < 0.34 else "str") == "symbol"
+    sn = dshuf((k, dshuf(((Symbol(r) if symkeys else r), v) for r, v in rd.items())) for k, rd in defn["sensor_noise"].items())
     cm = dshuf((syms[c], v) for c, v in defn["calibration_map"].items())
     return syms, model, sensors, pn, sn, cm
 
